@@ -86,6 +86,12 @@ def check(run):
         cases.append(gen_seq(rng, nops))
     for _ in range(12 if quick else 200):
         cases.append(gen_seq(rng, 1200, [rng.choice(T.TABLES)], big=True))
+    # two index lists of different length with the same CRC32C code under the library's seed (found by an offline 2^32
+    # search): a list and a longer one that starts with it must stay two entries, in both orders of arrival
+    for T_ in ("rl", "ql"):
+        cases.append(["new:0", "a%s:0:0" % T_, "a%s:0:0.1.1366104114" % T_, "a%s:0:0" % T_, "g%s:0:0" % T_, "g%s:0:1" % T_, "s%s:0" % T_])
+        cases.append(["new:0", "a%s:0:0.1.1366104114" % T_, "a%s:0:0" % T_, "a%s:0:0.1.1366104114" % T_, "g%s:0:0" % T_, "g%s:0:1" % T_, "s%s:0" % T_,
+                      "cp:1:0:cc", "a%s:1:0" % T_, "a%s:1:0.1.1366104114" % T_])
     compare(run, cases, seen, "tbl")
     # isolation between consecutive blocks + referential closure through the exporter
     sessions = [refexp.gen_session(rng, nops=rng.randrange(20, 120), maxes=[1, 2, 3]) for _ in range(150 if quick else 5000)]
